@@ -281,3 +281,33 @@ impl<V> DotBuilder for DateTimeMatcher<V> {
         Some(node_name)
     }
 }
+
+#[cfg(feature = "verif")]
+mod verif_hooks {
+    use super::{DateTimeCondition, DateTimeMatcher};
+    use crate::router::verif_hooks::VerifRouterDump;
+
+    impl<T> DateTimeMatcher<T> {
+        pub(crate) fn verif_walk(&self, path: &str, dump: &mut VerifRouterDump) {
+            self.any_datetime.verif_walk(format!("{path}/dt=*").as_str(), dump);
+
+            for (conditions, matcher) in &self.condition_groups {
+                let group = conditions
+                    .iter()
+                    .map(|c| match c {
+                        DateTimeCondition::DateTimeRange(ranges) => {
+                            format!("datetime[{}]", ranges.iter().map(|r| r.to_string()).collect::<Vec<String>>().join("|"))
+                        }
+                        DateTimeCondition::TimeRange(ranges) => {
+                            format!("time[{}]", ranges.iter().map(|r| r.to_string()).collect::<Vec<String>>().join("|"))
+                        }
+                        DateTimeCondition::Weekdays(weekdays) => format!("weekdays[{weekdays}]"),
+                    })
+                    .collect::<Vec<String>>()
+                    .join(" & ");
+
+                matcher.verif_walk(format!("{path}/dt{{{group}}}").as_str(), dump);
+            }
+        }
+    }
+}
